@@ -91,11 +91,17 @@ func VerifC16Placeholders() {
 	nd.Reach("end")
 }
 
-// VerifC16Malformed: placeholder keys that do not have the #name / :value form are rejected.
+// VerifC16Malformed: placeholder keys that do not have the #name / :value form are rejected - as value
+// keys and as name keys.
 func VerifC16Malformed() {
 	c := vClient(false)
+	names := nd.Choice("kind", 2) == 1
+	sig := byte(':')
+	if names {
+		sig = '#'
+	}
 	bad := nd.StringN("key", 1+nd.Choice("len", 3))
-	wellFormed := len(bad) >= 2 && bad[0] == ':'
+	wellFormed := len(bad) >= 2 && bad[0] == sig
 	for i := 1; i < len(bad); i++ {
 		ch := bad[i]
 		if !(ch >= 'a' && ch <= 'z' || ch >= 'A' && ch <= 'Z' || ch >= '0' && ch <= '9' || ch == '_') {
@@ -107,8 +113,14 @@ func VerifC16Malformed() {
 	for i := 0; i < len(bad); i++ {
 		nd.Assume(bad[i] > ' ' && bad[i] < 0x7f && bad[i] != '(' && bad[i] != ')' && bad[i] != ',')
 	}
-	in := &dynamodb.PutItemInput{TableName: aws.String(vTbl), Item: vItem{"p": vS("k")},
-		ConditionExpression: aws.String("attribute_not_exists(p) OR p = " + bad), ExpressionAttributeValues: vItem{bad: vS("x")}}
+	in := &dynamodb.PutItemInput{TableName: aws.String(vTbl), Item: vItem{"p": vS("k")}}
+	if names {
+		in.ConditionExpression = aws.String("attribute_not_exists(p) OR attribute_exists(" + bad + ")")
+		in.ExpressionAttributeNames = map[string]string{bad: "p"}
+	} else {
+		in.ConditionExpression = aws.String("attribute_not_exists(p) OR p = " + bad)
+		in.ExpressionAttributeValues = vItem{bad: vS("x")}
+	}
 	err, panicked := vCatch(func() error { _, e := c.PutItem(vCtx, in); return e })
 	nd.Assert(err != nil || panicked, "C16-malformed-placeholder-key-rejected")
 	nd.Reach("end")
@@ -138,7 +150,8 @@ func VerifC16Batch() {
 	}
 	// the limit is on the whole batch, however the requests are spread over tables
 	items := map[string][]types.WriteRequest{vTbl: reqs}
-	if len(reqs) >= 2 && nd.Choice("two-tables", 2) == 1 {
+	two := len(reqs) >= 2 && nd.Choice("two-tables", 2) == 1
+	if two {
 		nd.Assert(AddTable(vCtx, c, "tb2", "p", "") == nil, "setup-addtable2")
 		items = map[string][]types.WriteRequest{vTbl: reqs[:len(reqs)/2], "tb2": reqs[len(reqs)/2:]}
 	}
@@ -147,7 +160,15 @@ func VerifC16Batch() {
 	if invalid {
 		nd.Reach("invalid")
 		nd.Assert(vErrCode(err) == "ValidationException", "C16-invalid-batch-rejected")
-		nd.Assert(len(vScanAll(c)) == 0, "C16-invalid-batch-applies-nothing")
+		total := len(vScanAll(c))
+		if two {
+			out, serr := c.Scan(vCtx, &dynamodb.ScanInput{TableName: aws.String("tb2")})
+			nd.Assert(serr == nil, "scan2-noerr")
+			if serr == nil {
+				total += len(out.Items)
+			}
+		}
+		nd.Assert(total == 0, "C16-invalid-batch-applies-nothing")
 	} else {
 		nd.Reach("valid")
 		nd.Assert(err == nil, "C16-valid-batch-accepted")
